@@ -12,9 +12,11 @@ import time
 VERIF = os.path.dirname(os.path.dirname(os.path.abspath(__file__)))
 REPO = os.environ.get('VERIF_REPO', '/repo')
 SPEC = os.path.join(VERIF, 'spec')
-EVIDENCE = os.path.join(VERIF, 'evidence')
-REPLAYS = os.path.join(VERIF, 'replays')
-WORK = os.path.join(VERIF, '.work')
+# the three output locations can be redirected (tools/matrix.py runs the checks against patched scratch
+# worktrees in parallel and must not overwrite the evidence of the unchanged tree)
+EVIDENCE = os.environ.get('VERIF_EVIDENCE', os.path.join(VERIF, 'evidence'))
+REPLAYS = os.environ.get('VERIF_REPLAYS', os.path.join(VERIF, 'replays'))
+WORK = os.environ.get('VERIF_WORK', os.path.join(VERIF, '.work'))
 GUARD = 'YWANGD_PYBUFRKIT_VERIF'
 PY = '/venv/bin/python'
 
